@@ -259,6 +259,16 @@ fn rng_cmd(args: &[String]) -> i32 {
     for e in all.iter() {
         writeln!(out, "{}", serde_json::to_string(e).unwrap()).unwrap();
     }
+    // volume run: fingerprints only, as raw 16-byte records next to the trace (merged across processes by the caller)
+    let bulk: usize = arg(args, "--bulk").unwrap_or("0").parse().unwrap();
+    if bulk > 0 {
+        let fps = rngdrv::bulk_fingerprints(threads, bulk);
+        let mut f = std::fs::File::create(format!("{out_path}.fps")).expect("create fps");
+        for fp in &fps {
+            f.write_all(fp).unwrap();
+        }
+        println!("rng: {} bulk fingerprints", fps.len());
+    }
     println!("rng: {} events", all.len());
     0
 }
